@@ -23,7 +23,7 @@ RULE = (
     "next message / run exactly one loop iteration / complete one awaitable without running the loop), enumerated up to a depth "
     "bound, so that races between a completion's wake-up and the next routed message are reached; "
     "process_message returns. One message of a burst may be long (3.3 kB) or huge (150 kB: beyond any plausible internal slice size). "
-    "'busy-pipe' (TTY on a non-blocking pipe: one write call refused with BlockingIOError, nothing written: what reaches the channel is whole and in routing order, with or without the refused message); 'long-stall': one connection never completes its first write while 3000 (quick) / 20000 (thorough) messages are routed; the others "
+    "'busy-pipe' (TTY on a non-blocking pipe: one write call refused with BlockingIOError, nothing written: what reaches the channel is a selection of the routed messages, each whole, in routing order, everything before the refusal included); 'long-stall': one connection never completes its first write while 3000 (quick) / 20000 (thorough) messages are routed; the others "
     "must receive all of them. Each explored schedule is one evaluation; non-trivial: some connection had >= 2 unfinished sends at a "
     "choice point. Schedules of one configuration are distinct by construction."
 )
@@ -336,8 +336,13 @@ def check_busy_pipe(case):
         out = rig.output(c).decode("latin1")
         texts = [m.to_string().decode("latin1") for m in msgs]
         f = case["fail"] % case["n"]
-        ok = ("".join(texts), "".join(t for i, t in enumerate(texts) if i != f))
-        if out not in ok:
+        # acceptable: any selection of the routed messages, each whole, in routing order (the refused one - or, if the
+        # handler gives the connection up, everything from there on - may be missing)
+        pos = 0
+        for t in texts:
+            if out.startswith(t, pos):
+                pos += len(t)
+        if pos != len(out) or not out.startswith("".join(texts[:f])):  # (what was routed before the refusal had been written)
             pos = [(out.find(t), i) for i, t in enumerate(texts)]
             raise Failure("busy-pipe:order-or-wholeness-lost-after-a-refused-write", f"{case}: write {f} of {case['n']} was refused once; offsets at which the routed messages 0..{case['n'] - 1} appear on the channel (-1 = not whole): {pos}")
         return Info(nontrivial=case["n"] >= 2 and f < case["n"] - 1, labels=[f"n={case['n']}"])
